@@ -294,12 +294,32 @@ def pyramid_guards(repo, col):
         g = guard_nodes(required, src_direct if ("old", "size") in required
                         else None)
         ok = bool(g) and cfg.every_path_passes(cfg.entry, target, g)
-        col.add(rule, fn, label, ok,
+        und_g = False
+        if not ok:
+            # guards moved into helpers that are called before the loop: the
+            # relation they test is not traced through the helper's own data
+            # structures, but a raising helper on every path is not a defect
+            from .core import resolve_local_call
+            hn = []
+            owner_ = enclosing_stmt_map(fn.node)
+            for c_ in calls_in(fn.node):
+                h_ = resolve_local_call(fn, c_)
+                if h_ is None or h_ is fn:
+                    continue
+                raising = any(
+                    isinstance(x_, ast.If) and block_always_raises(x_.body)
+                    for x_ in ast.walk(h_.node))
+                if raising:
+                    n_ = cfg.node_of(owner_.get(id(c_)))
+                    if n_ is not None:
+                        hn.append(n_)
+            und_g = bool(hn) and cfg.every_path_passes(cfg.entry, target, hn)
+        col.add(rule, fn, label, ok or und_g,
                 "a raising guard relating %s dominates the chunk loop"
                 % " and ".join("%s %s" % r for r in sorted(required)) if ok
                 else "no raising guard relating %s dominates the chunk loop: "
                 % " and ".join("%s %s" % r for r in sorted(required)) + why,
-                node=loop)
+                node=loop, undecided=und_g and not ok)
     # the compatibility guard must test both conditions per axis: exact
     # halving of the old chunk and new in {half, 2*half}
     g = guard_nodes({("old", "chunk_sizes"), ("new", "chunk_sizes")})
